@@ -55,6 +55,7 @@ void NewStrVector(strvector **s, size_t size)
     (*s)->data = xmalloc(sizeof(char*)*size);
     for(i = 0; i < (*s)->size; i++){
       (*s)->data[i] = xmalloc(sizeof(char));
+      (*s)->data[i][0] = '\0';
     }
 }
 
